@@ -14,7 +14,7 @@ for d in "${DIFFS[@]}"; do
   # a change written against an earlier commit of /repo (before a later fix: commit) is tried on HEAD first, then on
   # HEAD~1, HEAD~2, ... : the check must catch it on the tree it was written for
   base=HEAD; applied=0
-  for back in 0 1 2 3 4 5 6 7 8 9 10 11 12; do
+  for back in $(seq 0 60); do
     git -C "$WT" checkout -q --detach "HEAD~$back" 2>/dev/null || break
     if git -C "$WT" apply "$d" 2>/tmp/apply.$$.err; then applied=1; base="HEAD~$back"; break; fi
     git -C "$WT" checkout -q --detach "$(git -C /repo rev-parse HEAD)"
